@@ -710,6 +710,13 @@ func (t *tread) handle(cs *connState) message {
 		return newErr(linux.ENOBUFS)
 	}
 
+	// The reply must fit in the negotiated message size: shorten the read
+	// rather than exceed it.
+	count := t.Count
+	if max := cs.maxReplyPayload(); count > max {
+		count = max
+	}
+
 	var n int
 	data := cs.readBufPool.Get().(*[]byte)
 	// Retain a reference to the full length of the buffer.
@@ -727,7 +734,7 @@ func (t *tread) handle(cs *connState) message {
 				return linux.EPERM
 			}
 
-			n, err = ref.file.ReadAt(dataBuf[:t.Count], int64(t.Offset))
+			n, err = ref.file.ReadAt(dataBuf[:count], int64(t.Offset))
 			return err
 
 		case xattrWalk:
@@ -750,7 +757,7 @@ func (t *tread) handle(cs *connState) message {
 				return linux.EINVAL
 			}
 
-			n = copy(dataBuf[:t.Count], ref.pendingXattr.buf[t.Offset:])
+			n = copy(dataBuf[:count], ref.pendingXattr.buf[t.Offset:])
 			return nil
 		default:
 			return linux.EINVAL
@@ -1047,6 +1054,13 @@ func (t *treaddir) handle(cs *connState) message {
 	}
 	defer ref.DecRef()
 
+	// The reply must fit in the negotiated message size: list fewer entries
+	// rather than exceed it.
+	count := t.Count
+	if max := cs.maxReplyPayload(); count > max {
+		count = max
+	}
+
 	var entries []Dirent
 	if err := ref.safelyRead(func() (err error) {
 		// Don't allow reading deleted directories.
@@ -1060,7 +1074,7 @@ func (t *treaddir) handle(cs *connState) message {
 		}
 
 		// Read the entries.
-		entries, err = ref.file.Readdir(t.Offset, t.Count)
+		entries, err = ref.file.Readdir(t.Offset, count)
 		if err != nil && !errors.Is(err, io.EOF) {
 			return err
 		}
@@ -1069,7 +1083,7 @@ func (t *treaddir) handle(cs *connState) message {
 		return newErr(err)
 	}
 
-	return &rreaddir{Count: t.Count, Entries: entries}
+	return &rreaddir{Count: count, Entries: entries}
 }
 
 // handle implements handler.handle.
